@@ -137,10 +137,29 @@ func NewMemoryDatabase(cfg *MemoryDatabaseCfg) (MemoryDatabase, error) {
 		familyTime:    cfg.FamilyTime,
 		name:          cfg.Name,
 		timeSeriesIDs: roaring.New(),
-		createdTime:   fasttime.UnixNano(),
+		createdTime:   nextCreatedTime(),
 		statistics:    metrics.NewMemDBStatistics(cfg.Name),
 	}
 	return db, nil
+}
+
+// lastCreatedTime is the created time of the newest memory database.
+var lastCreatedTime atomic.Int64
+
+// nextCreatedTime returns the created time(ns) of a new memory database, unique in the process:
+// it identifies the memory database in the shard level time series indexes(family time ranges) which all
+// families share, and fasttime moves every few milliseconds only.
+func nextCreatedTime() int64 {
+	for {
+		now := fasttime.UnixNano()
+		last := lastCreatedTime.Load()
+		if now <= last {
+			now = last + 1
+		}
+		if lastCreatedTime.CompareAndSwap(last, now) {
+			return now
+		}
+	}
 }
 
 // MarkReadOnly marks memory database cannot writable.
